@@ -2,7 +2,7 @@
 generator's own description only (never from pycollada): direct indexing flat[(t*k+c)*nind+o],
 the documented normalisations (U,V -> S,T; S,T,P -> S,T with the third component dropped; NaN -> 0;
 colours padded to RGBA; node name defaults to id; aspect ratio dropped when all three camera
-parameters are given) and the conventions DESIGN.md 7/C05 states where the property text is silent.
+parameters are given) and the conventions DESIGN.md 7/C05 states where the property text is silent (library and scene nodes in document order).
 
 `expected(D)` returns a *pattern*: a nested structure holding only the fields the property demands;
 `compare(pattern, snapshot)` lists the places where the snapshot differs from the pattern.
@@ -352,24 +352,21 @@ def inst_refs(N):
 
 
 def library_node_order(nodes):
-    """convention: a top-level library node that instantiates a node not loaded yet is deferred as a whole and
-    listed after the others (passes repeat while they make progress)"""
-    loaded, order, pending = set(), [], list(nodes)
-    first = True
+    """the nodes of one <library_nodes> are listed in document order (since /repo e99e57c also when a node
+    that instantiates a later one had to wait for it); a node whose instance_node never resolves is not loaded"""
+    loaded, pending = set(), list(nodes)
     progress = True
-    while pending and (first or progress):
+    while pending and progress:
         progress = False
         nxt = []
         for n in pending:
             if all(r in loaded for r in inst_refs(n)):
-                order.append(n)
                 loaded.add(n['id'])
                 progress = True
             else:
                 nxt.append(n)
         pending = nxt
-        first = False
-    return order
+    return [n for n in nodes if n['id'] in loaded]
 
 
 def expected(D):
